@@ -299,6 +299,48 @@ func runC04(r *Run) {
 	checkDecodeReadOnly(r, wr)
 	wr.Done()
 	_ = attrsF
+	// ---- the verdict is the MAC comparison and nothing else
+	vd := r.Rule("C04.verdict", "every error MessageIntegrity.Check returns is either the error of looking up MESSAGE-INTEGRITY (Get) or the result of checkHMAC on the received and the computed MAC: no other test - of attributes behind the MAC, of bytes behind the message - can make a correctly signed message fail", 2)
+	if ck := p.Meth("MessageIntegrity", "Check"); ck != nil {
+		getM := p.Meth("Message", "Get")
+		chk := p.Fn("checkHMAC")
+		idx := errorResultIndex(ck)
+		var allowed func(v ssa.Value, depth int) bool
+		allowed = func(v ssa.Value, depth int) bool {
+			if depth > 8 || v == nil {
+				return false
+			}
+			v = deref(v)
+			switch x := v.(type) {
+			case *ssa.Const:
+				return false // Check has no unconditional verdict
+			case *ssa.Call:
+				return chk != nil && callsFn(x, chk)
+			case *ssa.Extract:
+				if c, ok := x.Tuple.(*ssa.Call); ok && getM != nil && callsFn(c, getM) && x.Index == 1 {
+					return true
+				}
+			case *ssa.Phi:
+				for _, e := range x.Edges {
+					if !allowed(e, depth+1) {
+						return false
+					}
+				}
+				return len(x.Edges) > 0
+			}
+			return false
+		}
+		for _, ret := range returnsOf(ck) {
+			if idx < 0 {
+				break
+			}
+			vd.Instance(fmt.Sprintf("%s|return@b%d", fnName(ck), ret.Block().Index), true, map[string]string{"returns": exprCanon(ret.Results[idx])})
+			if !allowed(ret.Results[idx], 0) {
+				vd.Violation(ck, instrPos(ret), "return "+exprCanon(ret.Results[idx]), "Check returns a verdict that is neither the lookup's error nor the MAC comparison: the outcome depends on something RFC 5389 15.4 says to ignore (what follows MESSAGE-INTEGRITY, or bytes behind the message)")
+			}
+		}
+	}
+	vd.Done()
 	// ---- the MAC handed to Add is a private copy
 	av := r.Rule("C04.addvalue", "the value MessageIntegrity.AddTo hands to Add does not live in the message's own buffer: the digest was summed into Raw's spare capacity, exactly where Add writes the attribute header, so it is copied out first on every path", 1)
 	if at := p.Meth("MessageIntegrity", "AddTo"); at != nil {
@@ -658,59 +700,97 @@ func checkNewHMAC(r *Run, rc *RuleCtx, fn *ssa.Function) {
 func checkLongTerm(r *Run, rc *RuleCtx) {
 	p := r.P
 	fn := p.Fn("NewLongTermIntegrity")
-	if fn == nil {
+	if fn == nil || len(fn.Params) != 3 {
 		rc.Fail("NewLongTermIntegrity", "not found")
 		return
 	}
 	r.Analysed(fn)
 	rc.Instance(fnName(fn), true, nil)
-	var join *ssa.Call
-	md5New, sumOK, fed := false, false, false
 	var h ssa.Value
 	eachInstr(fn, func(b *ssa.BasicBlock, i int, in ssa.Instruction) {
-		c, ok := in.(*ssa.Call)
-		if !ok {
-			return
-		}
-		if isPkgFuncCall(c, "strings", "Join") {
-			join = c
-		}
-		if isPkgFuncCall(c, "crypto/md5", "New") {
-			md5New = true
+		if c, ok := in.(*ssa.Call); ok && isPkgFuncCall(c, "crypto/md5", "New") {
 			h = c
 		}
 	})
-	if join == nil || !md5New {
+	if h == nil {
 		rc.Violation(fn, fn.Pos(), "key derivation", "the long-term key is not MD5 over the joined credentials")
 		return
 	}
-	if sep, ok := constString(join.Call.Args[1]); !ok || sep != ":" {
-		rc.Violation(fn, instrPos(join), "separator", "the credentials must be joined with \":\"")
-	}
-	// elements in order username, realm, password
-	if sl, ok := join.Call.Args[0].(*ssa.Slice); ok {
-		if al, ok := sl.X.(*ssa.Alloc); ok {
-			got := map[int64]ssa.Value{}
-			for _, u := range *al.Referrers() {
-				if ia, ok := u.(*ssa.IndexAddr); ok {
-					idx, _ := constInt(ia.Index)
-					for _, w := range *ia.Referrers() {
-						if st, ok := w.(*ssa.Store); ok {
-							got[idx] = st.Val
+	// the string built from the parameters, as a sequence of parts: "p0".."p2" for the parameters, quoted
+	// literals for constants (strings.Join over a literal list and + concatenation are understood)
+	var parts func(v ssa.Value, depth int) ([]string, bool)
+	parts = func(v ssa.Value, depth int) ([]string, bool) {
+		if depth > 10 || v == nil {
+			return nil, false
+		}
+		switch x := v.(type) {
+		case *ssa.Parameter:
+			for i, pa := range fn.Params {
+				if pa == x {
+					return []string{fmt.Sprintf("p%d", i)}, true
+				}
+			}
+		case *ssa.Const:
+			if sv, ok := constString(x); ok {
+				if sv == "" {
+					return nil, true
+				}
+				return []string{fmt.Sprintf("%q", sv)}, true
+			}
+		case *ssa.Convert:
+			return parts(x.X, depth+1)
+		case *ssa.ChangeType:
+			return parts(x.X, depth+1)
+		case *ssa.MakeInterface:
+			return parts(x.X, depth+1)
+		case *ssa.BinOp:
+			if x.Op == token.ADD {
+				a, ok1 := parts(x.X, depth+1)
+				b, ok2 := parts(x.Y, depth+1)
+				return append(append([]string{}, a...), b...), ok1 && ok2
+			}
+		case *ssa.Call:
+			if isPkgFuncCall(x, "strings", "Join") && len(x.Call.Args) == 2 {
+				sep, okS := parts(x.Call.Args[1], depth+1)
+				sl, okL := x.Call.Args[0].(*ssa.Slice)
+				if !okS || !okL {
+					return nil, false
+				}
+				al, okA := sl.X.(*ssa.Alloc)
+				if !okA {
+					return nil, false
+				}
+				got := map[int64]ssa.Value{}
+				for _, u := range *al.Referrers() {
+					if ia, ok := u.(*ssa.IndexAddr); ok {
+						idx, _ := constInt(ia.Index)
+						for _, w := range *ia.Referrers() {
+							if st, ok := w.(*ssa.Store); ok {
+								got[idx] = st.Val
+							}
 						}
 					}
 				}
-			}
-			for i := 0; i < 3; i++ {
-				if got[int64(i)] != ssa.Value(fn.Params[i]) {
-					rc.Violation(fn, instrPos(join), fmt.Sprintf("element %d of the joined credentials", i), "order must be username, realm, password")
+				var out []string
+				for i := int64(0); i < int64(len(got)); i++ {
+					e, ok := parts(got[i], depth+1)
+					if !ok {
+						return nil, false
+					}
+					if i > 0 {
+						out = append(out, sep...)
+					}
+					out = append(out, e...)
 				}
-			}
-			if len(got) != 3 {
-				rc.Violation(fn, instrPos(join), "joined credentials", "exactly username, realm, password are joined")
+				return out, len(got) > 0
 			}
 		}
+		return nil, false
 	}
+	want := []string{"p0", `":"`, "p1", `":"`, "p2"}
+	sumOK, fed := false, false
+	var fedAt ssa.Instruction
+	var gotParts []string
 	eachInstr(fn, func(b *ssa.BasicBlock, i int, in ssa.Instruction) {
 		c, ok := in.(*ssa.Call)
 		if !ok {
@@ -719,22 +799,55 @@ func checkLongTerm(r *Run, rc *RuleCtx) {
 		if c.Call.IsInvoke() && c.Call.Value == h && c.Call.Method.Name() == "Sum" {
 			sumOK = true
 		}
-		// the joined string is fed to the hash (fmt.Fprint(h, k), io.WriteString, h.Write([]byte(k)))
+		// something is written into the hash: h.Write(x), h.WriteString / io.WriteString(h, x), fmt.Fprint(h, x)
+		intoHash := c.Call.IsInvoke() && c.Call.Value == h && strings.HasPrefix(c.Call.Method.Name(), "Write")
+		if !intoHash && !c.Call.IsInvoke() {
+			for _, a := range c.Call.Args {
+				if dependsOn(a, h, 0) {
+					intoHash = true
+				}
+			}
+		}
+		if !intoHash {
+			return
+		}
 		for _, a := range c.Call.Args {
-			if dependsOn(a, join, 0) {
-				for _, a2 := range c.Call.Args {
-					if dependsOn(a2, h, 0) {
-						fed = true
+			if dependsOn(a, h, 0) {
+				continue
+			}
+			// fmt.Fprint's variadic list: the elements of the literal slice
+			cands := []ssa.Value{a}
+			if sl, isSl := a.(*ssa.Slice); isSl {
+				if al, isAl := sl.X.(*ssa.Alloc); isAl {
+					for _, u := range *al.Referrers() {
+						if ia, isIA := u.(*ssa.IndexAddr); isIA {
+							for _, w := range *ia.Referrers() {
+								if st, isSt := w.(*ssa.Store); isSt {
+									cands = append(cands, st.Val)
+								}
+							}
+						}
 					}
 				}
-				if c.Call.IsInvoke() && c.Call.Value == h {
-					fed = true
+			}
+			for _, cv := range cands {
+				if ps, okP := parts(cv, 0); okP && len(ps) > 0 {
+					fedAt, gotParts = c, ps
+					if strings.Join(ps, "") == strings.Join(want, "") {
+						fed = true
+					}
 				}
 			}
 		}
 	})
 	if !fed {
-		rc.Violation(fn, fn.Pos(), "hash input", "the joined credentials are not written into the MD5 hash")
+		pos := fn.Pos()
+		what := "the joined credentials are not written into the MD5 hash"
+		if fedAt != nil {
+			pos = instrPos(fedAt)
+			what = "what is hashed is " + strings.Join(gotParts, " + ") + ", not username \":\" realm \":\" password (RFC 5389 15.4): another key than every other implementation derives"
+		}
+		rc.Violation(fn, pos, "hash input", what)
 	}
 	if !sumOK {
 		rc.Violation(fn, fn.Pos(), "hash output", "the key is not the MD5 sum")
@@ -1001,6 +1114,9 @@ func runC05(r *Run) {
 	// the checkers rewrite nothing but the length bytes they restore: a bit flipped in transit stays flipped in Raw
 	// for the fingerprint check that follows (shared with C07)
 	r.Borrow("C07", map[string]string{"C07.readonly": "C05.readonly"})
+	// Decode's type translation maps nothing but the one legacy alias: no other code point becomes FINGERPRINT
+	// (a flipped bit in the uncovered type field would otherwise still verify) (shared with C02)
+	r.Borrow("C02", map[string]string{"C02.compat": "C05.compat"})
 	wr := r.Rule("C05.wire", "Decode and everything it calls never write a byte of the message (Raw and views of it): the CRC is computed over the bytes as received", 1)
 	checkDecodeReadOnly(r, wr)
 	wr.Done()
